@@ -515,6 +515,22 @@ def _relabelled(g, rng):
     return G.shuffle_insertion(G.relabel(g, dict(zip(ids, new))), rng)
 
 
+def _respell(g, rng):
+    """The same labelled graph with attributes that equal the matchers' defaults left out at random (charge 0, scalar order 1,
+    element "*"): isomorphic to g on element, charge and bond order, but only if a missing label is read as its default."""
+    h = _copy(g)
+    for _, a in h["nodes"]:
+        if a.get("charge") == 0 and rng.random() < 0.5:
+            del a["charge"]
+        if a.get("element") == "*" and rng.random() < 0.5:
+            del a["element"]
+    for _, _, a in h["edges"]:
+        o = a.get("order")
+        if not isinstance(o, (list, tuple)) and o == 1 and rng.random() < 0.5:
+            del a["order"]
+    return h
+
+
 def _signature(g):
     """An isomorphism-invariant string (sorted element/charge multiset and sorted order multiset)."""
     ns = sorted("%s%d" % (a.get("element", "*"), a.get("charge", 0)) for _, a in g["nodes"])
@@ -639,6 +655,51 @@ def _batch_vs_oneshot(rng, case, n):
     return ops
 
 
+def _gap_templates(rng, case, n):
+    """Starting templates whose class numbers have gaps and whose largest number is NOT on the last template, then everything
+    else arrives through cluster / batched fit / lib_check (fresh classes must be max+1, never a number in use)."""
+    idx = list(range(n))
+    rng.shuffle(idx)
+    k = rng.randint(2, min(4, n - 1))
+    nums = sorted(rng.sample(range(0, 15), k), reverse=True)
+    if k > 2 and rng.random() < 0.5:
+        nums[1:] = rng.sample(nums[1:], k - 1)
+    tl = []
+    for i, c in zip(idx[:k], nums):
+        for j, c2 in tl:
+            if ref_iso(case["items"][i]["g"], case["items"][j]["g"]) and _same_attr(case, i, j):
+                c = c2
+                break
+        tl.append([i, c])
+    rest = idx[k:] + rng.sample(idx[:k], rng.randint(0, k))
+    rng.shuffle(rest)
+    ops = [["templates", tl]]
+    z = rng.random()
+    if z < 0.35 or len(rest) < 2:
+        ops.append(["cluster", rest])
+    elif z < 0.7:
+        ops.append(_fit_op(case, rest, rng.choice([1, 2, 3]), True))
+    else:
+        h = rng.randint(1, len(rest) - 1)
+        ops += [["lib_check", i] for i in rest[:h][:3]]
+        ops.append(_fit_op(case, rest[h:], rng.choice([None, 2]), True))
+    ops.append(["lib_check", rng.choice(idx)])
+    return ops
+
+
+def _empty_templates(rng, case, n):
+    """templates=[] (not None) on the one-batch path of fit, then incremental calls on what it returned."""
+    order = list(range(n))
+    rng.shuffle(order)
+    h = rng.randint(1, n)
+    ops = [["templates", []], _fit_op(case, order[:h], rng.choice([None, h, h + 2]), False)]
+    ops += [["lib_check", i] for i in order[h:][:2]]
+    if order[h + 2:]:
+        ops.append(["cluster", order[h + 2:]])
+    ops += [["templates", []], ["cluster", order]]
+    return ops
+
+
 def gen_cases(tier, rng):
     corpus = _corpus()
     cases = []
@@ -660,7 +721,7 @@ def gen_cases(tier, rng):
             cases.append(mk("exh-orders", items, "none", True,
                             lambda c: [["gc_fit", [0, 1, 2]], ["gc_iter", [0, 1, 2], True], _fit_op(c, [0, 1, 2], 1, False), ["reset"],
                                        ["cluster", [0, 1, 2]], ["reset"], _fit_op(c, [0, 1, 2], None, False), ["lib_check", 2]]))
-    n_hist, n_b = (1200, 150) if tier == "quick" else (9000, 1200)
+    n_hist, n_b = (1060, 150) if tier == "quick" else (9000, 1200)
     for t in range(n_hist):
         z = rng.random()
         if z < 0.7:
@@ -674,6 +735,29 @@ def gen_cases(tier, rng):
         inv = mode == "none" or rng.random() < 0.85
         items = _pool(rng, base, size)
         cases.append(mk(kind + "/history", items, mode, inv, lambda c: _history(rng, c, size)))
+    # default-valued labels spelled differently (attribute absent / default written out), wildcard atoms, order-1 bonds
+    wild = []
+    for g in synth:
+        h = _copy(g)
+        rng.choice(h["nodes"])[1]["element"] = "*"
+        wild.append(h)
+    for t in range(140 if tier == "quick" else 1200):
+        z = rng.random()
+        if z < 0.35:
+            base, kind = rng.sample(corpus, rng.randint(2, 3)), "corpus"
+        else:
+            base, kind = rng.sample(synth + wild, rng.randint(2, 4)), "synthetic"
+        size = rng.randint(4, 9)
+        mode = rng.choice(["none", "none", "str", "list"])
+        items = _pool(rng, base, size)
+        for it in items:
+            if rng.random() < 0.65:
+                it["g"] = _respell(it["g"], rng)
+                if it["src"] == "dup":
+                    it["src"] = "respell"
+        z = rng.random()
+        hist = _gap_templates if z < 0.3 else _empty_templates if z < 0.4 else _history
+        cases.append(mk(kind + "/respelled", items, mode, True, lambda c: hist(rng, c, size)))
     for t in range(n_b):
         base = rng.sample(corpus, rng.randint(2, 3))
         size = rng.randint(3, 8)
